@@ -164,7 +164,8 @@ Callback ==
          Heard(t) == \A s \in ChainI(t) : Res(tbind[s]) # 0
          pset == {q \in Probes : ProbeExists(q)}
          Dv(q) == LET t == GovI(q)  x == Res(tbind[t]) IN IF x # 0 THEN Abs(lpos2[x] - tx[t]) * 1000 ELSE pval[q]
-         obs == [q \in pset |-> [id |-> q, h |-> Heard(GovI(q)), has |-> Res(tbind[GovI(q)]) # 0, dv |-> Dv(q)]]
+         Dv2(q) == LET t == GovI(q)  x == Res(tbind[t]) IN IF x # 0 /\ Abs(lpos2[x] - tx[t]) # 0 THEN 1000 ELSE 0
+         obs == [q \in pset |-> [id |-> q, h |-> Heard(GovI(q)), has |-> Res(tbind[GovI(q)]) # 0, dv |-> Dv(q), dv2 |-> Dv2(q)]]
          order == SortedSeq(pset)
      IN
      /\ keys' = keys2 /\ aocc' = aocc2 /\ agen' = agen1
